@@ -83,9 +83,19 @@ func (o *c06Oracle) AfterStep(e *core.Engine, idx int, st *core.Step, stepErr er
 	}
 	var vs []core.Violation
 	mk := func(sig, msg string) {
-		ks := core.DiffDumps(ref.DumpMap(), o.shadow.DumpMap(), 10)
+		rd, sd := ref.DumpMap(), o.shadow.DumpMap()
+		ks := core.DiffDumps(rd, sd, 10)
+		var vals []string
+		for i, k := range ks {
+			if i >= 3 {
+				break
+			}
+			mv, mok := rd[k]
+			tv, tok := sd[k]
+			vals = append(vals, fmt.Sprintf("%q: main(present=%v)=%x twin(present=%v)=%x", k, mok, clipB(mv, 40), tok, clipB(tv, 40)))
+		}
 		vs = append(vs, core.Violation{Property: "C06", Oracle: "shadow-without-failed-txs", Sig: sig,
-			Msg: fmt.Sprintf("h%d: %s; block had %d txs of which %d failed; leaked/differing keys: %q", h, msg, len(ra.TxBytes), len(ra.TxBytes)-len(keep), ks)})
+			Msg: fmt.Sprintf("h%d: %s; block had %d txs of which %d failed; leaked/differing keys: %q; values: %v", h, msg, len(ra.TxBytes), len(ra.TxBytes)-len(keep), ks, vals)})
 	}
 	for i := range keepRes {
 		if i >= len(sa.Txs) {
@@ -109,6 +119,13 @@ func (o *c06Oracle) AfterStep(e *core.Engine, idx int, st *core.Step, stepErr er
 		mk("app-hash", fmt.Sprintf("app hash differs after removing the failed transactions: main=%x twin=%x", ra.AppHash, sa.AppHash))
 	}
 	return vs
+}
+
+func clipB(b []byte, n int) []byte {
+	if len(b) > n {
+		return b[:n]
+	}
+	return b
 }
 
 func clipS(s string, n int) string {
